@@ -10,6 +10,7 @@ import (
 	"io"
 	"log/slog"
 	"regexp"
+	"runtime"
 	"sync"
 	"time"
 
@@ -29,7 +30,12 @@ var Kinds = []Kind{JSON, Text, Nano}
 func (k Kind) String() string { return [...]string{"json", "text", "nano"}[k] }
 
 func NewHandler(k Kind, w io.Writer, level slog.Level) logger.Handler {
-	opts := logger.NewOptions(level, false, false)
+	return NewHandlerOpts(k, w, level, false, false)
+}
+
+// NewHandlerOpts: colour and source on request (the yardstick of C02/C03 is the implementation itself, so both may vary).
+func NewHandlerOpts(k Kind, w io.Writer, level slog.Level, colorful, addSource bool) logger.Handler {
+	opts := logger.NewOptions(level, colorful, addSource)
 	switch k {
 	case JSON:
 		return logger.NewJsonHandler(w, opts)
@@ -65,6 +71,32 @@ var FixedTime = time.Date(2024, 2, 3, 4, 5, 6, 789000000, time.UTC)
 
 func NewRecord(level slog.Level, msg string, attrs ...slog.Attr) slog.Record {
 	r := slog.NewRecord(FixedTime, level, msg, 0)
+	r.AddAttrs(attrs...)
+	return r
+}
+
+// PCs are program counters of a few distinct source lines, for hand-built records of handlers with addSource.
+var PCs = func() []uintptr {
+	var r []uintptr
+	for _, f := range []func() uintptr{pcA, pcB, pcC, pcD} {
+		r = append(r, f())
+	}
+	return r
+}()
+
+func pcOf() uintptr {
+	var pcs [1]uintptr
+	runtime.Callers(2, pcs[:])
+	return pcs[0]
+}
+func pcA() uintptr { return pcOf() }
+func pcB() uintptr { return pcOf() }
+func pcC() uintptr { return pcOf() }
+func pcD() uintptr { return pcOf() }
+
+// NewRecordPC is NewRecord with a program counter (0 = none).
+func NewRecordPC(level slog.Level, msg string, pc uintptr, attrs ...slog.Attr) slog.Record {
+	r := slog.NewRecord(FixedTime, level, msg, pc)
 	r.AddAttrs(attrs...)
 	return r
 }
@@ -117,6 +149,8 @@ func Solo(k Kind, level slog.Level, chain []Step, rec slog.Record) (line []byte,
 var (
 	reJSONTime = regexp.MustCompile(`^\{"time":"[^"]*"`)
 	reTextTime = regexp.MustCompile(`^time=\S+`)
+	// nano: everything in front of the level label "[I]" (possibly wrapped in colour codes)
+	reNanoTime = regexp.MustCompile(`^[^\[\x1b]* ((?:\x1b\[[0-9;]*m)?\[[DIWEF]\])`)
 )
 
 // NormTime blanks the time field of a line (for lines produced through Logger, which stamps time.Now()).
@@ -127,10 +161,7 @@ func NormTime(k Kind, line []byte) []byte {
 	case Text:
 		return reTextTime.ReplaceAll(line, []byte("time=T"))
 	default:
-		if len(line) >= 19 {
-			return append([]byte("T"), line[19:]...)
-		}
-		return line
+		return reNanoTime.ReplaceAll(line, []byte("T $1"))
 	}
 }
 
